@@ -10,3 +10,7 @@ open SamVerif.Hint
 #print axioms annotate_monotone
 #print axioms any_annotated_rule_counterexample
 #print axioms placeholder_in_type_test_counterexample
+#print axioms wrap_keeps_hints
+#print axioms wrap_keeps_hints_code
+#print axioms annotate_keeps_later_hints
+#print axioms enclosing_hint_rule_counterexample
